@@ -784,3 +784,259 @@ Print Assumptions sf_minus_bridge32.
 Print Assumptions leaf_width_exact32.
 Print Assumptions locate1_in_grid_gen.
 Print Assumptions locate1_in_grid32.
+
+(* ====================================================================================================== *)
+(* Containment up to one rounding of the quotient (generic, then binary64 / binary32).                     *)
+(* ====================================================================================================== *)
+From Flocq Require Import Relative.
+
+Section GenericContain.
+Variable prec emax : Z.
+Context (prec_gt_0_ : Prec_gt_0 prec).
+Context (prec_lt_emax_ : Prec_lt_emax prec emax).
+Hypothesis Hemax3 : (3 <= emax)%Z.
+
+Local Notation eming := (3 - emax - prec)%Z.
+Local Notation fexpg := (FLT_exp (3 - emax - prec) prec).
+Local Notation Fg := (generic_format radix2 (FLT_exp (3 - emax - prec) prec)).
+Local Notation rndg := (round radix2 (FLT_exp (3 - emax - prec) prec) ZnearestE).
+Local Notation bf := (binary_float prec emax).
+
+(* truncation of a non-negative float: z <= x < z + 1 *)
+Lemma sf_trunc_floor_g : forall (q : bf) (z : Z), 0 <= B2R q ->
+  sf_trunc (B2SF q) = Some z -> IZR z <= B2R q < IZR z + 1.
+Proof.
+intros q z Hq.
+destruct q as [s|s| |s m e Hb]; unfold B2SF, sf_trunc; try discriminate.
+{ intros Hz. apply Some_inj_Z in Hz. subst z. simpl. lra. }
+cbn [B2R] in Hq |- *.
+destruct s.
+{ exfalso. revert Hq. apply Rlt_not_le. apply F2R_lt_0. simpl. lia. }
+cbn [cond_Zopp]. unfold F2R; cbn [Fnum Fexp].
+destruct (Z.leb_spec 0 e) as [He|He]; intros Hz; apply Some_inj_Z in Hz; subst z.
+- rewrite mult_IZR. change 2%Z with (radix_val radix2). rewrite (IZR_Zpower radix2 e He). lra.
+- assert (He' : (0 <= - e)%Z) by lia.
+  assert (Hpe : (0 < 2 ^ (- e))%Z) by (apply Z.pow_pos_nonneg; lia).
+  set (d := (2 ^ (- e))%Z) in *.
+  assert (Hd : IZR d = bpow radix2 (- e)).
+  { unfold d. change 2%Z with (radix_val radix2). now rewrite IZR_Zpower. }
+  assert (Hdm := Z.div_mod (Z.pos m) d ltac:(lia)).
+  assert (Hr := Z.mod_pos_bound (Z.pos m) d Hpe).
+  set (z := (Z.pos m / d)%Z) in *.
+  assert (Hlo : (z * d <= Z.pos m)%Z) by lia.
+  assert (Hhi : (Z.pos m < (z + 1) * d)%Z) by lia.
+  apply IZR_le in Hlo. apply IZR_lt in Hhi.
+  rewrite mult_IZR, Hd in Hlo. rewrite mult_IZR, plus_IZR, Hd in Hhi.
+  assert (Hbe : 0 < bpow radix2 e) by apply bpow_gt_0.
+  assert (Hone : bpow radix2 (- e) * bpow radix2 e = 1).
+  { rewrite <- bpow_plus. replace (- e + e)%Z with 0%Z by ring. reflexivity. }
+  split.
+  + replace (IZR z) with (IZR z * bpow radix2 (- e) * bpow radix2 e) by (rewrite Rmult_assoc, Hone; ring).
+    apply Rmult_le_compat_r; lra.
+  + replace (IZR z + 1) with ((IZR z + 1) * bpow radix2 (- e) * bpow radix2 e) by (rewrite Rmult_assoc, Hone; ring).
+    apply Rmult_lt_compat_r; lra.
+Qed.
+
+(* core: either the edge case, or k = floor (fl (rel / lw)) *)
+Lemma locate1_round_gen : forall (H wlo whi : Z) (center width pos : bf),
+  (1 <= H < emax)%Z -> (eming + prec + (H - 1) <= wlo)%Z -> (whi < emax)%Z ->
+  is_finite center = true -> is_finite pos = true -> is_finite width = true ->
+  bpow radix2 wlo <= B2R width <= bpow radix2 whi ->
+  forall k, locate1 prec emax H (B2SF center) (B2SF width) (B2SF pos) = LocCoord k ->
+  let rel := SF2R radix2 (SFsub prec emax (B2SF pos) (box_corner prec emax (B2SF center) (B2SF width))) in
+  let lw := B2R width * bpow radix2 (- (H - 1)) in
+  (rel = B2R width /\ k = (2 ^ (H - 1) - 1)%Z) \/
+  (0 <= rel < B2R width /\ (0 <= k)%Z /\ IZR k <= rndg (rel / lw) < IZR k + 1).
+Proof.
+intros H wlo whi center width pos HH Hlo Hhi Fc Fp Fw Hw k Hloc rel lw.
+assert (Hpp := prec_pos_g prec prec_gt_0_).
+assert (Hgrid := locate1_in_grid_gen prec emax prec_gt_0_ prec_lt_emax_ Hemax3
+                   H wlo whi center width pos HH Hlo Hhi Fc Fp Fw Hw k Hloc).
+revert Hloc.
+destruct (box_corner_Bg prec emax prec_gt_0_ prec_lt_emax_ Hemax3 center width) as [cb Hcb].
+destruct (leaf_width_Bg prec emax prec_gt_0_ prec_lt_emax_ Hemax3 H wlo whi width HH Hlo Hhi Fw Hw)
+  as [lwb [L1 [L2 L3]]].
+rewrite (locate1_as_Bg prec emax prec_gt_0_ prec_lt_emax_ H center width pos cb lwb Hcb L1).
+unfold locate1_Bg.
+assert (Hrel : rel = B2R (Bminus mode_NE pos cb)).
+{ unfold rel. rewrite <- Hcb, <- (sf_minus_bridge_gen prec emax _ _). apply SF2R_B2SF. }
+clearbody rel.
+set (r := Bminus mode_NE pos cb) in *.
+destruct (Bleb (B754_zero false) r && Bleb r width)%bool eqn:Ha; cbn [negb]; [|discriminate].
+assert (Fr : is_finite r = true) by (apply (assert_finite_g prec emax r width Fw Ha)).
+apply andb_prop in Ha. destruct Ha as [Ha1 Ha2].
+rewrite Bleb_correct in Ha1, Ha2 by (assumption || reflexivity).
+apply Rle_bool_le in Ha1. apply Rle_bool_le in Ha2.
+cbn [B2R] in Ha1.
+rewrite Beqb_correct by assumption.
+case Req_bool_spec; intros Hne.
+{ intros Hz. left. split; [congruence | congruence]. }
+right.
+assert (Hw0 : 0 < B2R width) by (generalize (bpow_gt_0 radix2 wlo); lra).
+assert (Hw' : bpow radix2 (eming + prec) <= B2R width).
+{ apply Rle_trans with (2 := proj1 Hw). apply bpow_le. lia. }
+destruct (quot_bound_g prec emax prec_gt_0_ Hemax3 (B2R r) (B2R width) (H - 1)
+            (B2R_Fg prec emax r) (B2R_Fg prec emax width) ltac:(lia) Hw' ltac:(lra))
+  as [Q1 Q2].
+fold lw in Q1, Q2.
+revert Hloc.
+generalize (Bdiv_correct prec emax _ _ mode_NE r lwb).
+change (round radix2 (SpecFloat.fexp prec emax) (round_mode mode_NE)) with rndg.
+rewrite L2. fold lw.
+assert (Hb53 : 0 < bpow radix2 (H - 1 - prec)) by apply bpow_gt_0.
+rewrite Rlt_bool_true.
+2:{ rewrite Rabs_pos_eq by exact Q1.
+    apply Rle_lt_trans with (1 := Q2).
+    apply Rlt_trans with (bpow radix2 (H - 1)); [lra | apply bpow_lt; lia]. }
+intros HD. destruct HD as [D1 _].
+{ unfold lw. apply Rgt_not_eq. apply Rmult_lt_0_compat; [lra | apply bpow_gt_0]. }
+destruct (sf_trunc (B2SF (Bdiv mode_NE r lwb))) as [z|] eqn:Hz; [|discriminate].
+intros Hk. assert (k = z) by congruence. subst z.
+rewrite Hrel.
+split; [lra|]. split; [lia|].
+rewrite <- D1.
+apply sf_trunc_floor_g; [rewrite D1; exact Q1 | exact Hz].
+Qed.
+
+Theorem locate1_contains_gen : forall (H wlo whi : Z) (center width pos : bf),
+  (1 <= H < emax)%Z -> (eming + prec + (H - 1) <= wlo)%Z -> (whi < emax)%Z ->
+  is_finite center = true -> is_finite pos = true -> is_finite width = true ->
+  bpow radix2 wlo <= B2R width <= bpow radix2 whi ->
+  forall k, locate1 prec emax H (B2SF center) (B2SF width) (B2SF pos) = LocCoord k ->
+  let rel := SF2R radix2 (SFsub prec emax (B2SF pos) (box_corner prec emax (B2SF center) (B2SF width))) in
+  let lw := B2R width * bpow radix2 (- (H - 1)) in
+  (rel = B2R width /\ k = (2 ^ (H - 1) - 1)%Z) \/
+  (IZR k * (1 - bpow radix2 (- prec)) <= rel / lw < (IZR k + 1) * (1 + bpow radix2 (- prec))).
+Proof.
+intros H wlo whi center width pos HH Hlo Hhi Fc Fp Fw Hw k Hloc rel lw.
+assert (Hpp := prec_pos_g prec prec_gt_0_).
+destruct (locate1_round_gen H wlo whi center width pos HH Hlo Hhi Fc Fp Fw Hw k Hloc)
+  as [E | [Hrel [Hk0 Hfl]]]; [left; exact E | right].
+fold rel lw in Hrel, Hfl.
+set (q := rel / lw) in *.
+assert (Hw0 : 0 < B2R width) by (generalize (bpow_gt_0 radix2 wlo); lra).
+assert (Hlw0 : 0 < lw) by (unfold lw; apply Rmult_lt_0_compat; [lra | apply bpow_gt_0]).
+assert (Hq0 : 0 <= q).
+{ unfold q. apply Rmult_le_pos; [lra | left; now apply Rinv_0_lt_compat]. }
+assert (Hu : 0 < bpow radix2 (- prec)) by apply bpow_gt_0.
+assert (Hu1 : bpow radix2 (- prec) < 1).
+{ change 1 with (bpow radix2 0). apply bpow_lt. lia. }
+assert (Hk0' : 0 <= IZR k) by (apply IZR_le; exact Hk0).
+destruct (Rlt_or_le q (bpow radix2 (eming + prec - 1))) as [Hsmall | Hnorm].
+- (* quotient below the normal range: fl(q) < 1, k = 0 *)
+  assert (Hb1 : bpow radix2 (eming + prec - 1) < 1).
+  { change 1 with (bpow radix2 0). apply bpow_lt. lia. }
+  assert (Hfq : rndg q <= bpow radix2 (eming + prec - 1)).
+  { apply round_le_generic; auto with typeclass_instances.
+    - apply (F_bpow_g prec emax prec_gt_0_). lia.
+    - lra. }
+  assert (Hk : k = 0%Z).
+  { assert (IZR k < 1) by lra. apply lt_IZR in H0. lia. }
+  subst k. simpl (IZR 0). split; lra.
+- assert (Herr := relative_error_N_FLT_round radix2 eming prec Hpp (fun x => negb (Z.even x)) q).
+  change (Znearest (fun x : Z => negb (Z.even x))) with ZnearestE in Herr.
+  rewrite (Rabs_pos_eq q) in Herr by exact Hq0.
+  specialize (Herr Hnorm).
+  assert (Hfq0 : 0 <= rndg q) by lra.
+  rewrite (Rabs_pos_eq (rndg q)) in Herr by exact Hfq0.
+  assert (Hub : / 2 * bpow radix2 (- prec + 1) = bpow radix2 (- prec)).
+  { rewrite bpow_plus. simpl (bpow radix2 1). lra. }
+  rewrite Hub in Herr.
+  set (u := bpow radix2 (- prec)) in *.
+  set (fq := rndg q) in *.
+  assert (Hlo1 : fq - q <= u * fq) by (apply Rle_trans with (2 := Herr); apply Rle_abs).
+  assert (Hhi1 : q - fq <= u * fq).
+  { apply Rle_trans with (2 := Herr). rewrite <- Rabs_Ropp. 
+    replace (- (fq - q)) with (q - fq) by ring. apply Rle_abs. }
+  assert (HA : IZR k * (1 - u) <= fq * (1 - u)) by (apply Rmult_le_compat_r; lra).
+  assert (HB : fq * (1 + u) < (IZR k + 1) * (1 + u)) by (apply Rmult_lt_compat_r; lra).
+  split; lra.
+Qed.
+
+(* exact case: the quotient is representable (e.g. dyadic boxes): k is exactly the floor of rel / lw *)
+Theorem locate1_contains_exact_gen : forall (H wlo whi : Z) (center width pos : bf),
+  (1 <= H < emax)%Z -> (eming + prec + (H - 1) <= wlo)%Z -> (whi < emax)%Z ->
+  is_finite center = true -> is_finite pos = true -> is_finite width = true ->
+  bpow radix2 wlo <= B2R width <= bpow radix2 whi ->
+  forall k, locate1 prec emax H (B2SF center) (B2SF width) (B2SF pos) = LocCoord k ->
+  let rel := SF2R radix2 (SFsub prec emax (B2SF pos) (box_corner prec emax (B2SF center) (B2SF width))) in
+  let lw := B2R width * bpow radix2 (- (H - 1)) in
+  Fg (rel / lw) ->
+  (rel = B2R width /\ k = (2 ^ (H - 1) - 1)%Z) \/ (IZR k <= rel / lw < IZR k + 1).
+Proof.
+intros H wlo whi center width pos HH Hlo Hhi Fc Fp Fw Hw k Hloc rel lw Fq.
+destruct (locate1_round_gen H wlo whi center width pos HH Hlo Hhi Fc Fp Fw Hw k Hloc)
+  as [E | [Hrel [Hk0 Hfl]]]; [left; exact E | right].
+fold rel lw in Hfl.
+rewrite round_generic in Hfl; auto with typeclass_instances.
+Qed.
+
+End GenericContain.
+
+(* ---------- instances ---------- *)
+Theorem locate1_contains64 : forall H (center width pos : binary_float 53 1024),
+  (1 <= H <= 60)%Z ->
+  is_finite center = true -> is_finite pos = true -> is_finite width = true ->
+  (bpow radix2 (-900) <= B2R width <= bpow radix2 900)%R ->
+  forall k, locate1 53 1024 H (B2SF center) (B2SF width) (B2SF pos) = LocCoord k ->
+  let rel := SF2R radix2 (SFsub 53 1024 (B2SF pos) (box_corner 53 1024 (B2SF center) (B2SF width))) in
+  let lw := (B2R width * bpow radix2 (-(H-1)))%R in
+  (rel = B2R width /\ k = 2 ^ (H - 1) - 1)%Z \/
+  (IZR k * (1 - bpow radix2 (-53)) <= rel / lw < (IZR k + 1) * (1 + bpow radix2 (-53)))%R.
+Proof.
+intros H center width pos HH Fc Fp Fw Hw k Hloc.
+apply (locate1_contains_gen 53 1024 Hprec64 Hmax64 ltac:(lia) H (-900) 900 center width pos);
+  (lia || assumption).
+Qed.
+
+Theorem locate1_contains_exact64 : forall H (center width pos : binary_float 53 1024),
+  (1 <= H <= 60)%Z ->
+  is_finite center = true -> is_finite pos = true -> is_finite width = true ->
+  (bpow radix2 (-900) <= B2R width <= bpow radix2 900)%R ->
+  forall k, locate1 53 1024 H (B2SF center) (B2SF width) (B2SF pos) = LocCoord k ->
+  let rel := SF2R radix2 (SFsub 53 1024 (B2SF pos) (box_corner 53 1024 (B2SF center) (B2SF width))) in
+  let lw := (B2R width * bpow radix2 (-(H-1)))%R in
+  generic_format radix2 (FLT_exp (-1074) 53) (rel / lw) ->
+  (rel = B2R width /\ k = 2 ^ (H - 1) - 1)%Z \/ (IZR k <= rel / lw < IZR k + 1)%R.
+Proof.
+intros H center width pos HH Fc Fp Fw Hw k Hloc.
+apply (locate1_contains_exact_gen 53 1024 Hprec64 Hmax64 ltac:(lia) H (-900) 900 center width pos);
+  (lia || assumption).
+Qed.
+
+Theorem locate1_contains32 : forall H (center width pos : binary_float 24 128),
+  (1 <= H <= 30)%Z ->
+  is_finite center = true -> is_finite pos = true -> is_finite width = true ->
+  (bpow radix2 (-90) <= B2R width <= bpow radix2 90)%R ->
+  forall k, locate1 24 128 H (B2SF center) (B2SF width) (B2SF pos) = LocCoord k ->
+  let rel := SF2R radix2 (SFsub 24 128 (B2SF pos) (box_corner 24 128 (B2SF center) (B2SF width))) in
+  let lw := (B2R width * bpow radix2 (-(H-1)))%R in
+  (rel = B2R width /\ k = 2 ^ (H - 1) - 1)%Z \/
+  (IZR k * (1 - bpow radix2 (-24)) <= rel / lw < (IZR k + 1) * (1 + bpow radix2 (-24)))%R.
+Proof.
+intros H center width pos HH Fc Fp Fw Hw k Hloc.
+apply (locate1_contains_gen 24 128 Hprec32 Hmax32 ltac:(lia) H (-90) 90 center width pos);
+  (lia || assumption).
+Qed.
+
+Theorem locate1_contains_exact32 : forall H (center width pos : binary_float 24 128),
+  (1 <= H <= 30)%Z ->
+  is_finite center = true -> is_finite pos = true -> is_finite width = true ->
+  (bpow radix2 (-90) <= B2R width <= bpow radix2 90)%R ->
+  forall k, locate1 24 128 H (B2SF center) (B2SF width) (B2SF pos) = LocCoord k ->
+  let rel := SF2R radix2 (SFsub 24 128 (B2SF pos) (box_corner 24 128 (B2SF center) (B2SF width))) in
+  let lw := (B2R width * bpow radix2 (-(H-1)))%R in
+  generic_format radix2 (FLT_exp (-149) 24) (rel / lw) ->
+  (rel = B2R width /\ k = 2 ^ (H - 1) - 1)%Z \/ (IZR k <= rel / lw < IZR k + 1)%R.
+Proof.
+intros H center width pos HH Fc Fp Fw Hw k Hloc.
+apply (locate1_contains_exact_gen 24 128 Hprec32 Hmax32 ltac:(lia) H (-90) 90 center width pos);
+  (lia || assumption).
+Qed.
+
+Print Assumptions locate1_contains_gen.
+Print Assumptions locate1_contains_exact_gen.
+Print Assumptions locate1_contains64.
+Print Assumptions locate1_contains_exact64.
+Print Assumptions locate1_contains32.
+Print Assumptions locate1_contains_exact32.
